@@ -21,11 +21,12 @@ BUDGET_S = {"quick": 150, "thorough": 3000}
 SDL = """
 directive @tag on FIELD_DEFINITION
 scalar Money
+scalar Counter
 interface Node { id: ID! }
 type Item implements Node { id: ID! price: Money label: String @tag }
 type Item2 implements Node { id: ID! price: Money label: String @tag }
 input In { m: Money = 1 ms: [Money!] }
-type Query { item: Node item2: Node value: Int echo(m: Money): String nodef: Int echol(ms: [Money!]): String echoi(i: In): String }
+type Query { item: Node item2: Node value: Int count: Counter echo(m: Money): String nodef: Int echol(ms: [Money!]): String echoi(i: In): String }
 type Subscription { tick: Int }
 enum Level { LOW }
 """
@@ -43,6 +44,7 @@ PROBES = [
     ("q", "{ value nodef item { __typename id ... on Item { price label } ... on Item2 { price label } } echo(m: 5) }"),
     ("q", "{ item2 { __typename id } item { __typename } }"),
     ("q", "query($m: Money) { echo(m: $m) }"),
+    ("q", "{ count again: count }"),
     ("q", "{ __type(name: \"Money\") { name kind } __schema { subscriptionType { name } } }"),
     ("q", "{ a: __type(name: \"Item\") { fields(includeDeprecated: true) { name isDeprecated args { name defaultValue } } } "
           "b: __type(name: \"Level\") { enumValues { name } } __schema { types { name fields { name } enumValues { name } } } }"),
@@ -67,6 +69,27 @@ class MoneyImpl:
 
     def parse_literal(self, ast):
         return int(ast.value) + 10 * self.i
+
+
+class CounterImpl:
+    """a class-based scalar with per-instance state; registered for every bundle by feeding each @Scalar call's return value (the
+    class) into the next one, as stacked decorators do: every schema name must get its own instance"""
+
+    def __init__(self):
+        self.calls = 0
+
+    def coerce_output(self, v):
+        self.calls += 1
+        return "call#%d" % self.calls
+
+    def coerce_input(self, v):
+        return v
+
+    def parse_literal(self, ast):
+        return ast.value
+
+
+COUNTER_CHAIN = [CounterImpl]
 
 
 class TagImpl:
@@ -104,6 +127,10 @@ def register(i, kinds):
         async def r_echo(p, a, c, info):
             return "b%d:%r" % (i, a)
 
+        @Resolver("Query.count", schema_name=name)
+        async def r_count(p, a, c, info):
+            return 0
+
         @Resolver("Query.echol", schema_name=name)
         async def r_echol(p, a, c, info):
             return "bl%d:%r" % (i, a)
@@ -118,6 +145,7 @@ def register(i, kinds):
     # one implementation *class* shared by all bundles, configured per instance (state lives on the instance)
     if "scalar" in kinds:
         Scalar("Money", schema_name=name)(MoneyImpl(i))
+        COUNTER_CHAIN[0] = Scalar("Counter", schema_name=name)(COUNTER_CHAIN[0])
     if "directive" in kinds:
         Directive("tag", schema_name=name)(TagImpl(i))
     if "subscription" in kinds:
